@@ -119,3 +119,6 @@ func Guard(f func()) (pan any) {
 	f()
 	return nil
 }
+
+// Flush pushes buffered cases to the file (for a child process that may be killed, e.g. by the race detector).
+func (w *Writer) Flush() error { return w.w.Flush() }
